@@ -108,11 +108,19 @@ impl<T> MakeFragments<T>
 where
     T: Buf,
 {
-    fn new(id: u16, mtu: usize, buf: T) -> MakeFragments<T> {
+    fn new(id: u16, mtu: usize, mut buf: T) -> MakeFragments<T> {
         assert!(mtu > 4);
         let size = mtu - 4;
         let len = buf.remaining();
-        let total = div_ceil(len, size) as u8;
+        let mut total = div_ceil(len, size);
+        if total > 127 {
+            // total is a 7 bit field on the wire: a frame that needs more fragments can not be
+            // sent with this mtu, drop it (like any oversized datagram) rather than send garbage.
+            tracing::warn!("frame of {} bytes does not fit mtu {}, dropped", len, mtu);
+            buf.advance(len);
+            total = 0;
+        }
+        let total = total as u8;
         MakeFragments {
             buf,
             mtu,
